@@ -213,6 +213,9 @@ def check_C02(tier, seed, replay=None):
     rngi = random.Random(seed + 18)
     for _ in range(40 if tier == "quick" else 200):         # a few longer lines: key, newline, key, ...
         inputs.append([b for _k in range(rngi.randint(3, 5)) for b in rngi.choice([R["a"], R["a"], R["nl"], R["eacute"], R["euro"]])])
+    # a byte order mark, a carriage return and a tab are runes like any other (one column each, no new line)
+    for extra in ([0xEF, 0xBB, 0xBF], [13, 10], [9], [13]):
+        inputs += [extra + x for x in inputs[1:12]] + [x + extra + x for x in inputs[1:6]]
     options = [opt(), opt(memo=True), opt(maxexpr=3000), opt(maxexpr=3000, memo=True), opt(debug=True)]
     nin = len(inputs)
     run.add_witnesses([f["id"] for f in findings.active("C02")], groups, inputs, options)
@@ -357,11 +360,31 @@ def check_C06(tier, seed, replay=None):
     options = [opt(memo=m, debug=d, stats=s) for (m, d, s) in combos] + [opt(memo=m, debug=d, stats=s, maxexpr=3000) for (m, d, s) in combos]
     nin = len(inputs)
     lrin = add_lr(groups, inputs, 60 if tier == "quick" else 400, seed, maxlen=3, pure=True)   # "for a grammar without left recursion" limits only the work bound
+    # deep evaluation: the options must not change the result of a parse that nests hundreds of frames (indentation of the
+    # Debug trace, recursion of the memoised path)
+    from peg import Gram
+    deep = []
+    for body in (lambda g: g.choice([g.seq([g.lit([F.A]), g.ref(1)]), g.lit([F.A])]),
+                 lambda g: g.choice([g.seq([g.lit([F.B]), g.ref(1), g.lit([F.B])]), g.action(g.lit([F.A]))]),
+                 lambda g: g.action(g.seq([g.un("opt", g.seq([g.lit([F.B]), g.label(g.ref(1))])), g.lit([F.A])]))):
+        g = Gram(len(groups) + 1)
+        g.rules = [body(g)]
+        g.disp = [""]
+        g.compute_args()
+        g.maydiverge = False
+        g.tags.add("deep")
+        groups.append(g)
+        deep.append(g)
+    deep_first = len(inputs)
+    inputs += [[F.A] * 70, [F.B] * 45 + [F.A] + [F.B] * 45, [F.B] * 60 + [F.A], [F.B] * 30 + [F.A] + [F.B] * 29]
+    deepin = list(range(deep_first, len(inputs)))
     run.add_witnesses([f["id"] for f in findings.active("C06")], groups, inputs, options)
 
     def plan_for(g):
         if "lr" in g.tags:
             return [(ii, oi) for ii in lrin for oi in range(8)]
+        if "deep" in g.tags:
+            return [(ii, oi) for ii in deepin for oi in range(8)]
         # Memoize on a grammar that iterates without consuming never returns (known finding F3, C16): not run here
         ois = [8 + i for i, c in enumerate(combos) if not c[0]] if g.maydiverge else range(8)
         return [(ii, oi) for ii in range(nin) for oi in ois]
@@ -420,9 +443,22 @@ def check_C10(tier, seed, replay=None):
     foldin = list(range(fold_first, len(inputs)))
     bp = budget_plan(nin, lr_inputs=lrin)
 
+    # a code block that panics (the panic is contained and reported): the parses that FOLLOW in the same process must not
+    # see anything of it (stacks, pooled parser parts)
+    panic_oi = {}
+    for g in groups:
+        blks = [n_["blk"] for n_ in g.nodes if n_["blk"]]
+        if blks and g.gi % 5 == 0 and not g.maydiverge and "lr" not in g.tags and "fold" not in g.tags:
+            options.append(opt(panicblk=blks[0]))
+            panic_oi[g.gi] = len(options) - 1
+
     def plan10(g):
         if "fold" in g.tags:
             return [(ii, 1 if g.maydiverge else 0) for ii in foldin]
+        if g.gi in panic_oi:
+            pl = bp(g)
+            half = len(pl) // 2
+            return pl[:half] + [(ii, panic_oi[g.gi]) for ii in range(nin)] + pl[half:]
         return bp(g)
     xs = [[], ["-optimize-basic-latin"], ["-nolint"], ["-optimize-basic-latin", "-nolint"]]
     flagsets = [f for x in xs for f in (x, x + ["-optimize-parser"])]
@@ -479,7 +515,8 @@ def check_C11(tier, seed, replay=None):
         ois = []
         for r in range(len(blks) + 1):
             for sub in itertools.combinations(blks, r):       # every subset of failing blocks
-                options.append(opt(errblks=list(sub), fname=rng.choice(["", "f", "dir/x.peg", "a%d b.peg", "100%.txt", "x:1:2 (3).peg"])))
+                options.append(opt(errblks=list(sub), fname=rng.choice(["", "f", "dir/x.peg", "a%d b.peg", "100%.txt", "x:1:2 (3).peg"]),
+                                   via=rng.choice(["", "", "reader", "file"])))          # the contract is that of all three entry points
                 ois.append(len(options) - 1)
         for b in blks:                                          # every single block panics, contained or not
             for rec in (True, False):
@@ -550,6 +587,10 @@ def check_C14(tier, seed, replay=None):
     probe(lambda g: setattr(g, "rules", [g.seq([g.recover(g.lit([F.A]), g.lit([X]), ["la"]), g.throw("la")])]))
     probe(lambda g: setattr(g, "rules", [g.recover(g.un("star", g.seq([g.lit([F.A]), g.ref(2)])), g.lit([X]), ["la"]), g.choice([g.lit([F.B]), g.throw("la")])]))
     probe(lambda g: setattr(g, "rules", [g.recover(g.seq([g.un("not", g.seq([g.lit([F.A]), g.throw("la")])), g.any()]), g.lit([F.A]), ["la"])]))
+    # label lists with repeated names: every listed label is handled, wherever the repeats are
+    for labs in (["la", "la", "lb"], ["la", "lb", "la", "lc"], ["lb", "lb"], ["la", "lb", "la"]):
+        for th in ("la", "lb", "lc"):
+            probe(lambda g: setattr(g, "rules", [g.seq([g.recover(g.seq([g.lit([F.A]), g.throw(th)]), g.action(g.lit([X])), labs), g.un("opt", g.lit([F.B]))])]))
     # two recovery operators one after the other at the same depth; the later guarded expression throws the earlier one's label
     for (l1, l2, th) in [("la", "lb", "la"), ("la", "lb", "lb"), ("lb", "la", "lb"), ("la", "lc", "la")]:
         probe(lambda g: setattr(g, "rules", [g.seq([g.recover(g.seq([g.lit([F.A]), g.un("opt", g.throw(l1))]), g.lit([X]), [l1]),
@@ -834,6 +875,24 @@ def check_C07(tier, seed, replay=None):
         for swap in (False, True):
             for tail in (False, True):
                 builders.append(lambda gi, pk=pk, swap=swap, tail=tail: nullable_rule_prefix(gi, pk, swap, tail))
+
+    # left recursion confined to rules that the first rule does not reach (every rule can be an Entrypoint)
+    def unreachable_lr(gi, kind):
+        g = _G(gi)
+        if kind == 0:
+            g.rules = [g.lit([F.B]), g.choice([g.seq([g.ref(2), g.lit([F.A])]), g.lit([F.B])])]
+        elif kind == 1:
+            g.rules = [g.lit([F.B]), g.choice([g.seq([g.ref(3), g.lit([F.A])]), g.lit([F.B])]), g.choice([g.seq([g.ref(2), g.lit([F.A])]), g.lit([F.B])])]
+        elif kind == 2:
+            g.rules = [g.seq([g.lit([F.A]), g.ref(2)]), g.lit([F.B]), g.seq([g.un("opt", g.lit([F.A])), g.ref(3)])]
+        else:
+            g.rules = [g.ref(2), g.lit([F.B]), g.choice([g.seq([g.ref(1), g.lit([F.A])]), g.seq([g.ref(3), g.lit([F.B])]), g.lit([F.A])])]
+        g.disp = [""] * len(g.rules)
+        g.compute_args()
+        g.maydiverge = True
+        return g
+    for kind in range(4):
+        builders.append(lambda gi, kind=kind: unreachable_lr(gi, kind))
     groups = [b(i + 1) for i, b in enumerate(builders)]
     pigeon = P.build_pigeon()
     res = run_pigeon_each(groups, [], pigeon)
@@ -1665,6 +1724,9 @@ def check_C13(tier, seed, replay=None):
                 fl = list(rng.choice(specials))
             else:
                 fl = [x for x in base_flags if rng.random() < 0.35]
+            if kind in ("valid", "sweep") and j == 2 and "-h" not in fl and "-help" not in fl and "-o" not in fl and "-x" not in fl:
+                # the output file already exists and is longer than the new parser: after exit 0 it must be a complete parser
+                fl = fl + ["-o", os.path.join(d, "out", "pre_%d.go" % len(jobs))]
             extra_arg = [pth]
             if rng.random() < 0.01:
                 extra_arg = [pth, pth]
@@ -1681,6 +1743,10 @@ def check_C13(tier, seed, replay=None):
     def one(job):
         k, kind, pth, fl, args = job
         tmo = False
+        ofile = fl[fl.index("-o") + 1] if "-o" in fl and fl.index("-o") + 1 < len(fl) else None
+        if ofile and os.path.dirname(ofile) == outdir:
+            with open(ofile, "wb") as f:
+                f.write(b"stale tail of an older, longer parser ) } ]\n" * 20000)
         try:
             p = subprocess.run(memlimit + [pigeon] + fl + args, stdout=subprocess.PIPE, stderr=subprocess.PIPE, env=P.ENV, timeout=20, stdin=subprocess.DEVNULL)
             rc, out, err = p.returncode, p.stdout, p.stderr.decode(errors="replace")
@@ -1690,6 +1756,8 @@ def check_C13(tier, seed, replay=None):
                 rc, out, err = p.returncode, p.stdout, p.stderr.decode(errors="replace")
             except subprocess.TimeoutExpired:
                 rc, out, err, tmo = -1, b"", "", True
+        if ofile and os.path.dirname(ofile) == outdir and rc != 0 and os.path.exists(ofile):
+            os.remove(ofile)         # only the file of a run that claims success is judged (gofmt -e over the directory below)
         dbg = "-debug" in fl         # the front-end's own Debug trace goes to stdout before everything else
         diag = classify_stderr(err)
         gen = out.find(b"// Code generated by pigeon")
